@@ -707,6 +707,7 @@ pub fn check_main(def: &CheckDef, tier: Tier) -> i32 {
     let findings = load_findings();
     let mut exit = 0;
     let mut reported = 0u64;
+    let mut unreproduced = 0u64;
     let mut known_lines = vec![];
     let replay_dir = out_dir().join("replays").join(def.id);
     for (sig, v) in &stats.violations {
@@ -728,8 +729,13 @@ pub fn check_main(def: &CheckDef, tier: Tier) -> i32 {
             machinery_error("non-deterministic replay: harness does not own all nondeterminism");
         }
         if !sampling && a.0 == "ok" && !a.1.starts_with("verdict: VIOLATION") {
-            eprintln!("case {} was judged a violation ({}) in the exploration but replays as: {:?}", v.case_index, sig, a);
-            machinery_error("violation not reproduced on replay: harness does not own all nondeterminism");
+            // The case failed inside a worker that had run other cases before it, and passes alone in a fresh process:
+            // either okane carries state from one call to the next, or the harness leaks nondeterminism. It is not
+            // reported as a violation (it has no replayable artefact); if nothing reproducible is found the run ends
+            // as a machinery error instead of a pass.
+            println!("NOTE: case {} was judged a violation ({}) during the exploration but passes when replayed alone in a fresh process: {:?}", v.case_index, sig, a);
+            unreproduced += 1;
+            continue;
         }
         std::fs::create_dir_all(&replay_dir).ok();
         let path = replay_dir.join(format!("{}.json", sanitize(sig)));
@@ -765,6 +771,9 @@ pub fn check_main(def: &CheckDef, tier: Tier) -> i32 {
     );
     if stats.evaluations == 0 {
         machinery_error("no case was executed");
+    }
+    if exit == 0 && unreproduced > 0 {
+        machinery_error("a failure seen during the exploration did not reproduce in a fresh process and nothing reproducible was found: the run is not a pass");
     }
     exit
 }
